@@ -1,0 +1,56 @@
+/**
+ * Copyright 2025 ByteDance Inc.
+ *
+ * Licensed under the Apache License, Version 2.0 (the "License");
+ * you may not use this file except in compliance with the License.
+ * You may obtain a copy of the License at
+ *
+ *     https://www.apache.org/licenses/LICENSE-2.0
+ *
+ * Unless required by applicable law or agreed to in writing, software
+ * distributed under the License is distributed on an "AS IS" BASIS,
+ * WITHOUT WARRANTIES OR CONDITIONS OF ANY KIND, either express or implied.
+ * See the License for the specific language governing permissions and
+ * limitations under the License.
+ */
+
+package json
+
+import (
+	"testing"
+
+	"github.com/cloudwego/dynamicgo/internal/native/types"
+)
+
+func TestUnquote(t *testing.T) {
+	cases := []struct {
+		in  string
+		out string
+		ret int
+	}{
+		{``, "", 0},
+		{`abc`, "abc", 0},
+		{`\/<&`, "/<&", 0},
+		{`a\"b\\c\/d\be\ff\ng\rh\ti`, "a\"b\\c/d\be\ff\ng\rh\ti", 0},
+		{`\u007a\u007Az\u00e9\u4E2d`, "zzz\u00e9\u4e2d", 0},
+		{`\u2028\ud83d\uDE00!`, "\u2028\U0001F600!", 0},
+		{"raw \x01\xff bytes", "raw \x01\xff bytes", 0},
+		{`\`, "", -int(types.ERR_EOF)},
+		{`\u12`, "", -int(types.ERR_EOF)},
+		{`\x41`, "", -int(types.ERR_INVALID_ESCAPE)},
+		{`\u12g4`, "", -int(types.ERR_INVALID_CHAR)},
+		{`\ud83d`, "", -int(types.ERR_INVALID_UNICODE)},
+		{`\ud83dx`, "", -int(types.ERR_INVALID_UNICODE)},
+		{`\ud83dA`, "", -int(types.ERR_INVALID_UNICODE)},
+		{`\ude00\ud83d`, "", -int(types.ERR_INVALID_UNICODE)},
+	}
+	for _, c := range cases {
+		out, ret := Unquote([]byte("x"), c.in)
+		if ret != c.ret {
+			t.Fatalf("%q: ret %d, expected %d", c.in, ret, c.ret)
+		}
+		if ret == 0 && string(out) != "x"+c.out {
+			t.Fatalf("%q: got %q, expected %q", c.in, out[1:], c.out)
+		}
+	}
+}
